@@ -341,7 +341,23 @@ func init() {
 	}
 
 	suites["hostile"] = suite{gen: func(r *rand.Rand, n int, emit func(string)) {
-		for done := 0; done < n; {
+		// fixed witnesses first.
+		// F28b: a CONNECT whose will topic is "+/b" (retained will); the connection is dropped; the reference
+		// client (subscribed to +/b) and a later subscriber to # are sent PUBLISH packets with topic name +/b
+		for _, l := range []string{"reset", "bk.new", "bk.conn 1 4 1 726566", "bk.send 1 SUBSCRIBE id=1 f=2b2f62:0",
+			"bk.rawconn 2 101500044d5154540426003c00016800032b2f62000177", "bk.drop 2", "bk.conn 3 4 1 6333", "bk.send 3 SUBSCRIBE id=1 f=23:0"} {
+			emit(l)
+		}
+		// F28: maximum packet size 100, a 101-byte PUBLISH to the reference's topic is accepted and delivered;
+		// a 102-byte one (remaining length 100) is refused
+		p99 := append([]byte{0x30, 99}, append(rStr("r/t"), []byte(strings.Repeat("z", 94))...)...)
+		p100 := append([]byte{0x30, 100}, append(rStr("r/t"), []byte(strings.Repeat("z", 95))...)...)
+		for _, l := range []string{"reset", "bk.new maxpkt=100", "bk.conn 1 4 1 726566", "bk.send 1 SUBSCRIBE id=1 f=722f74:0",
+			"bk.rawconn 2 100d00044d5154540402003c000168", "bk.raw 2 " + hx(p99), "bk.send 1 PUBLISH q=1 id=2 t=722f74 p=6d31",
+			"bk.raw 2 " + hx(p100), "bk.send 1 PUBLISH q=1 id=3 t=722f74 p=6d32"} {
+			emit(l)
+		}
+		for done := 17; done < n; {
 			emit("reset")
 			maxpkt := pick(r, []int{0, 0, 100, 200, 1000})
 			caps := ""
